@@ -1,4 +1,5 @@
 // C03 finding C03-F3 (tag "outer_unit_squeezed"): outer(a,b) with a Tensor<T,1> operand drops the extent-1 axis.
+// Registered in known_findings.json as D29.
 //   g++ -std=c++14 -O2 -I/repo c03_f3_outer_unit.cpp && ./a.out
 // outer(a,b) denotes r(i...,j...) = a(i...)*b(j...) with the extents of both operands, which is what einsum<Index<0>,Index<1>>
 // returns (Tensor<T,3,1>).  outerproduct.h has dedicated overloads for Tensor<T,1> that return Tensor<T,Rest...> without the
